@@ -8,12 +8,18 @@
     * reordering predicate declarations changes nothing                                   (C13_reorder*)
     * a condition that is exactly a call `p(a,b)` expands to exactly `(body[formals := actuals])`   (C13_call_exact)
     * renaming never touches anything when no formal occurs / with the identity renaming  (rename lemmas)
+    * a call standing anywhere in a condition is replaced by the replacement text, the text before and after it is
+      kept character for character (C13_call_in_context; `Reach`: the rewriter arrives at the call at the start of
+      a token, not after a dot, having kept what it read)                                  (Cpf.Lemmas.Subst)
+    * expansion and renaming change the text only at identifiers they are about: a condition without such an
+      identifier is returned as it is, for every text (C13_uncalled_untouched, C13_rename_untouched)
   The general inlining statement (`C13_inline_full`) also needs "substituting a parenthesised expression
-  for a call commutes with parsing"; it is *not* proved — it is covered by the correspondence (model vs real
-  expansion, text for text) and by the oracle (the generator's own capture-free inlining, results compared
-  on the real engine) in checks/c13.py.
+  for a call commutes with parsing the condition" (the evaluator's parser is expr-lang, modelled); it is *not*
+  proved — it is covered by the correspondence (model vs real expansion, text for text) and by the oracle (the
+  generator's own capture-free inlining, results compared on the real engine) in checks/c13.py.
 -/
 import Cpf.Query.Cli
+import Cpf.Lemmas.Subst
 
 namespace Cpf.Props.C13
 open Cpf.Query
@@ -118,6 +124,49 @@ theorem C13_rename_ident (c : Char) (tl : List Char) (hc : isLetter c = true) (h
   simp only [List.length_cons, rewriteAux, hq, hc, Bool.false_eq_true, ↓reduceIte, spanIdent_all tl htl]
   simp [renLookup]
   cases tl.length <;> simp [rewriteAux]
+
+/-! ### expansion inside a condition -/
+
+open Cpf.Lemmas.Subst in
+/-- **C13 (call in context)**: wherever the call `name(args)` stands in the condition as a token of its own (the
+    rewriter reaches it at the start of a token, not after a dot, having kept what it read before — strings,
+    numbers, other identifiers), and no further call follows, the condition handed to the evaluator is the text
+    before, the replacement, and the text after: `p ++ body ++ post`. -/
+theorem C13_call_in_context (c : Char) (tl a post p s body : List Char)
+    (hc : isLetter c = true) (htl : IdentChars tl)
+    (hreach : Reach (callRw (c :: tl) ('(' :: a) body) false s p false (c :: tl ++ '(' :: a ++ post))
+    (hpost : ∀ x ∈ idents post, ¬ (x.1 = c :: tl ∧ x.2.1 = false ∧ Go.Str.hasPrefix x.2.2 ('(' :: a) = true)) :
+    replaceCall s (c :: tl) ('(' :: a) body = p ++ body ++ post :=
+  replaceCall_in_context c tl a post p s body hc htl hreach hpost
+
+open Cpf.Lemmas.Subst in
+/-- A condition in which the predicate is not called (its name does not stand there as an identifier followed by
+    the argument list, or only after a dot) is left exactly as it is — for every text. -/
+theorem C13_uncalled_untouched (s name args body : List Char)
+    (h : ∀ x ∈ idents s, ¬ (x.1 = name ∧ x.2.1 = false ∧ Go.Str.hasPrefix x.2.2 args = true)) :
+    replaceCall s name args body = s :=
+  replaceCall_untouched s name args body h
+
+open Cpf.Lemmas.Subst in
+/-- Renaming formals touches only identifiers that are formals and do not follow a dot: a body without them (string
+    literals and member names do not count) is unchanged — for every text. -/
+theorem C13_rename_untouched (s : List Char) (ren : List (List Char × List Char))
+    (h : ∀ x ∈ idents s, x.2.1 = true ∨ renLookup ren x.1 = none) : renameIdentifiers s ren = s :=
+  renameIdentifiers_untouched s ren h
+
+open Cpf.Lemmas.Subst in
+/-- Non-vacuity: in `a&&!p(m)` the rewriter reaches the call `p(m)` having kept `a&&!`; the theorem gives the
+    expansion `a&&!(B)`. -/
+example : replaceCall ['a', '&', '&', '!', 'p', '(', 'm', ')'] ['p'] ['(', 'm', ')'] ['(', 'B', ')']
+    = ['a', '&', '&', '!'] ++ ['(', 'B', ')'] ++ [] := by
+  apply C13_call_in_context 'p' [] ['m', ')'] [] ['a', '&', '&', '!'] _ ['(', 'B', ')'] (by decide) (by intro c hc; cases hc)
+  · have h0 : Reach (callRw ['p'] ['(', 'm', ')'] ['(', 'B', ')']) false ['p', '(', 'm', ')'] [] false ['p', '(', 'm', ')'] := .refl _ _
+    have h1 := Reach.chr (rw := callRw ['p'] ['(', 'm', ')'] ['(', 'B', ')']) false '!' ['p', '(', 'm', ')'] (by decide) (by decide) (by decide) h0
+    have h2 := Reach.chr (rw := callRw ['p'] ['(', 'm', ')'] ['(', 'B', ')']) false '&' _ (by decide) (by decide) (by decide) h1
+    have h3 := Reach.chr (rw := callRw ['p'] ['(', 'm', ')'] ['(', 'B', ')']) false '&' _ (by decide) (by decide) (by decide) h2
+    exact Reach.ident (rw := callRw ['p'] ['(', 'm', ')'] ['(', 'B', ')']) false 'a' ['&', '&', '!', 'p', '(', 'm', ')']
+      (p := ['&', '&', '!']) (m' := false) (r := ['p', '(', 'm', ')']) (by decide) (by decide) h3
+  · intro x hx; simp [idents, identsAux] at hx
 
 /-- The general statement (not proved; see the header). -/
 def C13_inline_full : Prop :=
